@@ -211,6 +211,12 @@ def check(run):
             t = random_transform(rng, sum(s.size for s in specs))
             run.count("transform")
         basis_case(run, specs, "chemist" if k % 2 else "physicist", t)
+    # a pure d shell with two segmented contractions (the Cartesian-to-pure matrix acts on the component index of every segment)
+    gd = ShellSpec(2, [0.2, -0.1, 0.3], [1.4, 0.5], [[0.6, -0.3], [0.5, 0.9]], sph=True)
+    for n_, other in enumerate([ShellSpec(0, [0.0, 0.6, -0.4], [0.9], [[1.0]]), ShellSpec(1, [0.0, 0.6, -0.4], [0.9, 0.3], [[1.0, 0.2], [0.3, 1.0]], sph=True)][: 1 if quick else 2]):
+        basis_case(run, [gd, other], "chemist" if n_ else "physicist")
+        basis_case(run, [other, gd.copy(sph=bool(n_))], "physicist" if n_ else "chemist")
+        run.count("pure d shell with two segmented contractions (whole-basis call)")
     from checks.common import structural_families
     for n_, (lab, sp_, T) in enumerate(structural_families(run, transforms=False, lmax_twins=1, lmax_obj=1, ls_extreme=(0, 1), small=True)):
         basis_case(run, sp_, "chemist" if n_ % 2 else "physicist", T)
